@@ -45,7 +45,7 @@ func objects(x *mon.Ctx, sha1Mode bool) {
 	if sha1Mode && !strings.Contains(os.Getenv("GODEBUG"), "x509sha1=1") {
 		x.HarnessError("workload c15.sha1 must run in configuration sha1ok (GODEBUG=x509sha1=1)")
 	}
-	n := x.Scale(300, 4000)
+	n := x.Scale(300, 5000)
 	if sha1Mode {
 		n = x.Scale(40, 400)
 	}
